@@ -28,11 +28,13 @@ Definition obs_all (u : list nodeT) (T : nat) (froms : list nat) (s : store) :=
   (obs_tags T s, map (fun f => obs_tags_from T f s) froms, map (obs_resolve_tag s) (seq 0 T),
    map (fun k => (obs_resolve_dig (u_dflt u) s k, obs_exists s k, obs_preds (length u) (u_succs u) s k))
        (seq 0 (length u))).
-Definition vm_case (u : list nodeT) (T : nat) (froms : list nat) (cfg : config) (h : list (op * orders)) :=
+Definition vm_case (u : list nodeT) (badl : list nat) (T : nat) (froms : list nat) (cfg : config) (h : list (op * orders)) :=
   let N := length u in
-  let sr := fold_left (fun acc oo =>
-              let r := step N (u_mf u) (u_succs u) (u_subj u) (u_sk u) true true true true cfg (fst acc) oo in
-              (fst r, snd acc ++ [snd r])) h (store_empty, []) in
+  let sr3 := fold_left (fun acc oo =>
+              let c := fst (fst acc) in let s := snd (fst acc) in
+              let r := step N (u_mf u) (u_succs u) (u_subj u) (u_sk u) (fun k => mem k badl) true true true true true c s oo in
+              (next_cfg c (fst oo), fst r, snd acc ++ [snd r])) h (cfg, store_empty, []) in
+  let sr := (snd (fst sr3), snd sr3) in
   let s := fst sr in
   (snd sr, obs_all u T froms s, obs_all u T froms (reopen N (u_mf u) (u_succs u) s), disk_valid s).
 """
@@ -106,9 +108,11 @@ def _vm_goal(cid, case, out):
     cfg = "(mkCfg %s %s)" % ("true" if p[2] == "1" else "false", "true" if p[3] == "1" else "false")
     n, T = int(p[4]), int(p[5])
     froms = [int(x) for x in p[6].split(",")]
-    nodes = []
+    nodes, badl = [], []
     for tok in p[7:7 + n]:
         fl, su, sb = tok.split(":")
+        if len(fl) > 3 and fl[3] == "x":
+            badl.append(len(nodes))
         nodes.append("(%s, %s, %s, %s, %s)" % (
             "true" if fl[0] == "m" else "false", "true" if fl[1] == "d" else "false",
             "true" if fl[2] == "s" else "false",
@@ -120,17 +124,26 @@ def _vm_goal(cid, case, out):
     lcg = _Lcg(cid)
     hist, results = [], []
     rmap = {"ok": "ROk", "exists": "RAlreadyExists", "notfound": "RNotFound",
-            "invalidref": "RInvalidReference", "hang": "RHang", "fuel": "ROutOfFuel"}
+            "invalidref": "RInvalidReference", "hang": "RHang", "fuel": "ROutOfFuel",
+            "badcontent": "RBadContent"}
     for op, r in zip(ops, res):
         a = op[1:]
         if op[0] in "CX":
             continue
         if op[0] == "P":
             t = "OPush %s" % a
+        elif op[0] == "Q":
+            k, x, an = a.split(":")
+            x = "0" if x == "6" else x
+            t = "OPushX (mkDesc %s %s %s)" % (k, x, "None" if an == "-" else "(Some (RTag %s))" % an)
         elif op[0] == "T":
             k, x, an, rf = a.split(":")
+            x = "0" if x == "6" else x
+            if rf == "B":
+                rf = "D%d" % (n + 7)
             t = "OTag (mkDesc %s %s %s) %s" % (k, x, "None" if an == "-" else "(Some (RTag %s))" % an,
-                                               "(RDig %s)" % k if rf == "d" else "(RTag %s)" % rf)
+                                               "(RDig %s)" % k if rf == "d" else
+                                               "(RDig %s)" % rf[1:] if rf[0] == "D" else "(RTag %s)" % rf)
         elif op[0] == "U":
             t = "OUntag (RTag %s)" % a
         elif op[0] == "V":
@@ -145,6 +158,8 @@ def _vm_goal(cid, case, out):
             t = "OReopen"
         elif op[0] == "I":
             t = "OInject %s" % a
+        elif op[0] == "A":
+            t = "OSetAutoGC %s" % ("true" if a == "1" else "false")
         else:
             return None
         if r not in rmap:
@@ -156,11 +171,11 @@ def _vm_goal(cid, case, out):
         return None
     f = last[2:-1].split("|")
     o1, o2 = _vm_obs(f[0], n, T, froms), _vm_obs(f[1], n, T, froms)
-    if o1 is None or o2 is None or f[1] != f[2] or f[1] != f[3]:
+    if o1 is None or o2 is None or f[1] != f[2] or f[1] != f[3] or f[1] != f[4]:
         return None
-    return "vm_case [%s] %d %s %s [%s] = ([%s], %s, %s, %s)" % (
-        ";".join(nodes), T, _vm_nats(froms), cfg, ";\n  ".join(hist), ";".join(results), o1, o2,
-        "true" if f[4] == "v1" else "false")
+    return "vm_case [%s] %s %d %s %s [%s] = ([%s], %s, %s, %s)" % (
+        ";".join(nodes), _vm_nats(badl), T, _vm_nats(froms), cfg, ";\n  ".join(hist), ";".join(results), o1, o2,
+        "true" if f[5] == "v1" else "false")
 
 
 def _c08_vm_sample(d, tier, coq, build, want=200):
@@ -219,15 +234,18 @@ CONFIG = {
     "timeout_search": 240,
     "timeout_thorough": 3000,
     "assumptions": [
-        "descriptor-consistent inputs: each digest is used under one media type and size (nodes of the model are digests); a tag name is never the digest string of another node (wf_history; C08_inconsistent_reference_example shows why); reference names are valid UTF-8 (encoding/json replaces invalid bytes)",
-        "content.Successors / manifestutil.Subject / descriptor.IsManifest are parameters of the theorems (succs, subj, mf with succs k = [] for non-manifests); manifests in the universe are well-formed JSON; SHA-2 and the verification of pushed bytes (C05) are not modelled: a blob file is identified with its node",
-        "graph.Memory is represented by its node set, Predecessors derived as {p in nodes | n in succs p} (graph.Memory's representation invariant, C07); IndexAll's per-call tracker is modelled as 'skip nodes already in the graph'; its goroutines are not modelled",
-        "Go map iteration orders (saveIndex two passes, gcIndex tagged pass and every round of the referrer pass, per Delete queue iteration the Referrers and Remove sets) are explicit choice lists and the theorems quantify over all of them; the untag loop of delete() is order-independent by construction. Go's order is not controllable, so the extracted model is run with pseudo-random orders and the compared observables must be (and on the repaired code are) independent of them; histories now include Delete cascades through referrers and never-stored children, GC with untagged subject chains and tags moved between nodes",
-        "encoding/json round trip of index.json and os file operations are exercised by the harness on real directories, not proved; internal/fs/tarfs is modelled at the level of cleaned names (Model/TarFS.v: last entry of a cleaned name wins, non-regular entries unsupported) and tied by unit cases through a verifhooks re-export; path.Clean is a parameter; archive/tar framing (the pos - blockSize re-read, PAX / GNU long-name records) is exercised on six archive styles, not proved",
-        "the model follows the repaired Delete / gcIndex / resolver.Memory.Tag of /repo main (C09's fixes); Delete's pending/held referrers (fixHold) included; the referrer pass as found (GC hang, F1) is kept behind fixF1=false with result RHang (C08_gc_hang_prefix); os.ReadDir/os.Remove errors of GC's sweep are not modelled; files under blobs/ that are no content are modelled by kind (gc_sweeps_stray) outside the store record; blob files written behind the store's back (OInject) are restricted to non-manifest content in the theorems",
+        "OUTSIDE the property's quantifier (caller inconsistency, generated but not judged): a descriptor passed to Tag/Delete that does not describe the stored content - wrong size (Store.Tag only checks that the blob path exists, so index.json then records the size that was passed: the clause 'blob of the recorded size' holds for the size given to Tag) or another media type (loadIndex indexes the tagged media type, so predecessors can differ after reopening). Nodes of the model are digests with ONE media type and size",
+        "reference names: any non-empty valid-UTF-8 string that is not the digest of other content; the repaired Tag refuses the rest (ErrInvalidReference), so the theorems need no hypothesis on names; the model's RDig k stands for 'the digest string of node k' and, for k outside the universe, for any reference Tag refuses for every descriptor (digest of nothing, invalid UTF-8)",
+        "content.Successors / manifestutil.Subject / descriptor.IsManifest are parameters of the theorems (succs, subj, mf with succs k = [] for non-manifests, bad k = undecodable manifest bytes: Push refuses them and, repaired, leaves no blob); SHA-2, the verification of pushed bytes (C05) and file contents are not modelled: a blob file is identified with its node, so 'Exists/Fetch equal after reopen' is true by construction in the model for the directory (same files) and rests on Model/TarFS.v + the harness for archives",
+        "graph.Memory is represented by its node set, Predecessors derived as {p in nodes | n in succs p} (graph.Memory's representation invariant, C07); IndexAll's per-call tracker is modelled as 'skip nodes already in the graph'; obs_equiv is a snapshot equivalence of the listed observables, not a bisimulation (the running graph keeps unreferenced pushed blobs as nodes, invisible to them)",
+        "totalisation: IndexAll, the subject-chain walk, Delete's queue and the GC rounds run on fuel derived from the universe bound N, Predecessors enumerates 0..N-1; the theorems hold for every N, the model is the Go code only when N exceeds every node id used and subj is acyclic (the harness always uses N = size of the universe; content addressing makes subject chains acyclic); no fuel-sufficiency lemma is proved",
+        "Go map iteration orders (saveIndex two passes, gcIndex tagged pass and every round of the referrer pass, per Delete queue iteration the Referrers and Remove sets) are explicit choice lists and the theorems quantify over all of them. That the STATES reached by Delete cascades and the GC referrer pass do not depend on the order is C09's theorem, not restated here: the correspondence evaluates the model under two unrelated order streams per history and reports a difference between them (or with Go's own random order) as a failure",
+        "AutoSaveIndex is fixed per history (AutoGC may be toggled: OSetAutoGC); with AutoSaveIndex off index.json is only claimed valid/current right after SaveIndex - between saves it may name deleted blobs, as the property's parenthesis allows",
+        "encoding/json round trip of index.json / oci-layout and os file operations are exercised by the harness on real directories, not proved; internal/fs/tarfs is modelled at the level of cleaned names and entry kinds (Model/TarFS.v: last entry of a cleaned name wins, regular and sparse members open to their content, other kinds unsupported) and tied by unit cases through a verifhooks re-export; path.Clean is a parameter; archive/tar framing is exercised on eleven archive styles (six written with archive/tar, GNU tar default / PAX sparse 1.0 / PAX sparse 0.1 / old GNU sparse, bsdtar), members of 8 GiB and more are not generated",
+        "the model follows the repaired Delete / gcIndex / resolver.Memory.Tag of /repo main (C09's fixes, Delete's pending/held referrers (fixHold) included); the referrer pass as found (GC hang, F1) is kept behind fixF1=false with result RHang (C08_gc_hang_prefix); os.ReadDir/os.Remove errors of GC's sweep are not modelled; files under blobs/ that are no content are modelled by kind (gc_sweeps_stray) outside the store record; blob files written behind the store's back (OInject) are restricted to non-manifest content in the theorems; Push always passes the bare node descriptor (annotations on the pushed descriptor are not generated)",
     ],
-    "level_text": "Coq theorems over all histories of Push/Tag/Untag/Delete/GC/SaveIndex/read-write reopen, all universes (DAG, media types), both AutoGC settings and all Go map iteration orders: with AutoSaveIndex (or after SaveIndex) the store reloaded from index.json + blobs answers exactly like the running store (tag list, tag->descriptor up to the ref-name annotation, Resolve by digest, Exists/Fetch, Predecessors) and every index.json entry points to a stored blob; proved as a store invariant + 'index.json is an order-independent projection of the resolver map' + load-after-save identity, about an executable model that is extracted and run against content/oci on random histories over real directories reopened three ways (oci.New, NewFromFS(os.DirFS), NewFromTar), with an independent reopen/layout/predecessor oracle",
-    "level_note": "full for the repaired code (GC saves index.json; GC keeps digest references of kept content; C09's Delete/gcIndex/resolver fixes); the pre-fix code is refuted by C08_reopen_equiv_refuted_gc, C08_reopen_equiv_refuted_gc_digest_ref and C08_gc_hang_prefix; the three reopen paths share loadIndex over an fs.FS in the model: oci.New only adds file creation on a missing layout, NewFromTar adds internal/fs/tarfs, modelled separately (C08_tar_view: an archive of the directory gives the os.DirFS view); tar framing, JSON and the file system are exercised, not proved; thorough tier re-evaluates 200 sampled histories inside Coq (vm_compute) against the extracted runner",
+    "level_text": "Coq theorems over all histories of Push/Tag/Untag/Delete/GC/SaveIndex/read-write reopen/AutoGC assignment, all universes (DAG, media types, undecodable manifests), all reference names the store accepts and all Go map iteration orders: with AutoSaveIndex (at every quiescent point) or right after SaveIndex the store reloaded from index.json + blobs answers exactly like the running store (tag list incl. Tags(last), tag->descriptor up to the ref-name annotation, Resolve by digest, Exists/Fetch, Predecessors) and every index.json entry points to a stored blob; proved as a store invariant + 'index.json is an order-independent projection of the resolver map' + load-after-save identity, plus 'an archive of the directory gives the os.DirFS view' for tarfs; about executable models that are extracted and run against content/oci and internal/fs/tarfs on random histories over real directories reopened four ways (oci.New, NewFromFS(os.DirFS), NewFromFS(fstest.MapFS), NewFromTar of archives in eleven styles incl. GNU tar / bsdtar sparse members), with an independent reopen/layout/predecessor oracle",
+    "level_note": "full for the repaired code (six fix: commits of this property: GC saves index.json; GC keeps digest references; tarfs reads data in place and decodes sparse members; Push leaves no blob it cannot index; Tag refuses digests of other content and invalid UTF-8) plus C09's Delete/gcIndex/resolver fixes; each pre-fix behaviour has a refuted witness or a corpus replay. ORACLE-ONLY clauses (no theorem, the model has no bytes/sizes/JSON): 'oci-layout and index.json parse', 'every blob file is named by the digest of its bytes', 'of the recorded size' (conditional on the size passed to Tag, see assumptions), Fetch returning the bytes, no leftover temporary files, opening does not rewrite index.json. Exists/Fetch equality is by construction in the store model; the tar clause rests on C08_tar_view (abstract names and kinds) + the harness. The three ways of reopening are one model function (loadIndex over an fs.FS): oci.New only adds file creation on a missing layout, NewFromTar adds tarfs. Thorough tier re-evaluates 200 sampled histories inside Coq (vm_compute) against the extracted runner",
     "technique": "machine-checked proof in Coq (store state machine, invariant over all histories and map iteration orders, load-after-save observational identity) + model/implementation correspondence on random histories + independent reopen/layout oracle",
     "explanation": "invariant (every stored manifest is referenced by digest and indexed; every reference points to stored content; index.json is a projection of the resolver map) proved for every history and map order; reopen = loadIndex of that projection proved observationally equal; model extracted and compared with content/oci on random histories with three-way reopening; independent oracle compares original and reopened stores, checks predecessors against the generator's edges and validates the raw directory",
 }
